@@ -26,6 +26,24 @@ class Arr2:
             return (self.rows, self.cols)
         return Method(self, attr)
 
+    def pyvc_method(self, ex, st, attr, args, kwargs, node, prims):
+        if attr == "reshape":
+            shape = args[0] if len(args) == 1 and isinstance(args[0], tuple) else tuple(args)
+            if len(shape) == 2:
+                # only the reshape to the array's own shape is modelled (the identity)
+                ex.oblige(st, z3.And(to_z3(shape[0]) == self.rows, to_z3(shape[1]) == self.cols), ex._name("reshape", node), f"line {node.lineno}: reshape of a 2-D array to its own shape")
+                return self
+            raise Unsupported("reshape of a 2-D array to another rank")
+        if attr == "any" and self.sort == B:
+            r, c = fresh("r"), fresh("c")
+            b = z3.Bool(f"any!{fresh('a').decl().name()}")
+            wr, wc = fresh("wr"), fresh("wc")
+            inb = lambda x, y: z3.And(x >= 0, x < self.rows, y >= 0, y < self.cols)
+            st.assume(z3.Implies(b, z3.And(inb(wr, wc), self.fn(wr, wc))))
+            st.assume(z3.ForAll([r, c], z3.Implies(z3.And(inb(r, c), self.fn(r, c)), b)))
+            return b
+        raise Unsupported(f"method {attr} of a 2-D array")
+
     def _lift(self, other):
         if isinstance(other, Arr2):
             return other
